@@ -37,14 +37,25 @@ ASSUMPTIONS = [
     "the reference recogniser (harness/props/c01_lang.py, longest-match lexer + recursive descent over the "
     "stratified grammar) defines well-formed / unbalanced / wrong-arity / missing-operand; strings in no class "
     "(e.g. '()', adjacent operands, stray characters) get no verdict, only impl = model is compared",
-    "the character-level statement (tokenisation of rendered text) is checked per instance (tokenize_ok) and by "
-    "correspondence, not proved: see C01_solve_eq_eval_statement",
+    "theorem literals: any non-empty text of digits, '.', 'e' in which every 'e' is followed by a digit and which "
+    "the atom class accepts (LitOK); every grammar literal is one (C01_grammar_literals); blanks are spaces",
+    "C01_reject_unbalanced assumes the atom class rejects texts containing a parenthesis (true of float()); "
+    "C01_reject_arity covers a call at the start of the string (after blanks) with arbitrary balanced arguments; "
+    "missing operands are proved at token level (right operand, left operand, trailing sign)",
 ]
-EXPLANATION = ("theorems: the nine documented passes run over the token list of any well-formed expression "
-               "yield its value (token level, unbounded, over the regenerated tables); generated step table = "
-               "documentation table; rejection of missing operands at token level; correspondence ties the "
-               "tokenizer, the argument scanner and the passes of the real code to the model on every run")
-EXTRA_OBLIGATIONS = []
+EXPLANATION = ("theorems (all unbounded, over the regenerated tables): solve(render blanks e) = eval e for every "
+               "well-formed e, every blank placement and every atom algebra with neg(neg a)=a (character level: "
+               "tokenizer + argument scanner + nested solvers, and token level: the nine passes); blank invariance; "
+               "generated step table = documentation table; every string with unbalanced parentheses is rejected; a "
+               "call with a wrong number of arguments is rejected; missing operands are rejected (token level). "
+               "correspondence ties the model (tokenizer, scanner, passes) to the real code on every run")
+EXTRA_OBLIGATIONS = [
+    # kernel-decided facts over the regenerated operator table (lean/SciVerif/Facts/C01Sym.lean)
+    "SciVerif.C01.fact_sym_start", "SciVerif.C01.fact_binary", "SciVerif.C01.fact_sign",
+    "SciVerif.C01.fact_not", "SciVerif.C01.fact_fn1", "SciVerif.C01.fact_fn2",
+    "SciVerif.C01.fact_fn1_noclash", "SciVerif.C01.fact_fn2_noclash",
+    "SciVerif.C01.fact_par_shape", "SciVerif.C01.fact_open_taken",
+]
 
 GEN = core.LEAN / "SciVerif" / "Generated" / "C01Tables.lean"
 CORPUS = core.VERIF / "corpus" / "C01"
